@@ -63,7 +63,10 @@ func keyBytes(k int) []byte {
 	case k >= 1000:
 		return []byte("z000")
 	}
-	return []byte(fmt.Sprintf("k%03d", k))
+	// keys have different lengths (4..7 bytes; a longer key is followed by a shorter
+	// one): code that keeps key bytes in a reused buffer must cope with a stale tail.
+	// The first four bytes decide the order, so index order == byte order.
+	return []byte(fmt.Sprintf("k%03d", k) + "~~~"[:[4]int{3, 0, 2, 1}[k%4]])
 }
 
 // kvEncode is the harness's own encoder of the KV item layout
@@ -90,7 +93,7 @@ func (ne *nitroEnv) itemKey(b []byte) []byte {
 // keyIndex maps item bytes back to the generator's key index.
 func (ne *nitroEnv) keyIndex(b []byte) int {
 	k := ne.itemKey(b)
-	if len(k) == 4 && k[0] == 'k' {
+	if len(k) >= 4 && k[0] == 'k' {
 		return int(k[1]-'0')*100 + int(k[2]-'0')*10 + int(k[3]-'0')
 	}
 	return -2
